@@ -15,7 +15,9 @@ Decided:
          the werkzeug debugger, is the one table entry); reraise_uncaught defaults to falsy;
   R08.d  a failed request leaves no trace: no function reachable from Application.__call__ in the core
          modules stores into a shared object (shared with C12).
-  R08.e  the error serialisers never use error text as a format template;
+  R08.e  the serialisers the fallback renderer shares with the primary renderer cannot raise on error data: no error
+         text used as a format template; html_escape only on text or as an attempt; every JSON encoding goes through
+         a total encoder (its hook for unknown values returns text instead of raising TypeError);
   R08.f  URL converters run under a handler (conversion failure = no match);
   R08.g  no strict bytes<->text conversion (``.decode(codec)`` without an errors argument) on the part of the
          request path that no handler covers: the call-graph closure from Application.__call__ through call
@@ -235,7 +237,15 @@ def run(rep):
         rep.check('R08.a', fkey(f, 'source_route'), ok, 'an error without a source route is attributed to the route that produced it before being rendered' if ok else
                   'ret.source_route may be unset when execute_error is called', app, sr_store[0] if sr_store else ee)
         # dispatch returns the result on every path: the result variable, or directly what the renderer / its fallback gave
-        rets = [r for r in returns_of(f) if not (isinstance(r.value, ast.Call) and call_name(r.value) == 'redirect')]
+        def _is_redirect(r):
+            """the statement returns a slash redirect: the call itself, or a local that can only hold one at this point"""
+            if isinstance(r.value, ast.Call) and call_name(r.value) == 'redirect':
+                return True
+            if isinstance(r.value, ast.Name) and r.value.id != dv.ret_var:
+                va = dv.value_at(r.value.id, r)
+                return bool(va) and all(isinstance(dv.resolve(v_), ast.Call) and call_name(dv.resolve(v_)) == 'redirect' for st_, v_ in va)
+            return False
+        rets = [r for r in returns_of(f) if not _is_redirect(r)]
         ok = bool(rets) and all(r.value is not None and (norm(r.value) == dv.ret_var or r is ee or r in fb) for r in rets) and \
             cfg.must_pass(cfg.nodes_of_all(returns_of(f)), cfg.entry, cfg.exit, normal_only=True)
         rep.check('R08.a', fkey(f, 'returns result'), ok, 'dispatch returns the (rendered) result' if ok else 'dispatch does not return the result variable', app, f.node)
@@ -310,6 +320,7 @@ def run(rep):
         if check_template_constancy(rep, 'R08.e') < 3:
             raise AnalysisError('format sinks in the to_* serialisers not found')
         check_escape_total(rep, 'R08.e')
+        check_json_encoder_total(rep, 'R08.e')
 
 
     def converter_rules():
@@ -333,6 +344,315 @@ def run(rep):
     # each group is analysed on its own: a construct one group cannot follow does not hide the verdicts of the others
     for group in (dispatch_rules, reraise_rules, store_rules, serialiser_rules, converter_rules, decoding_rules):
         run_group(rep, group)
+
+
+# ---------------------------------------------------------------------------------------------- R08.e: total JSON encoding
+TEXT_HOOKS = ('repr', 'str', 'ascii')
+_TOTAL, _PARTIAL = 'total', 'partial'
+
+
+class _Unknown(Exception):
+    """the construct is there but this analysis cannot tell (reported as an analysis gap, never as a verdict)"""
+
+
+def _is_json_encoder_class(repo, c):
+    if c is None:
+        return False
+    if isinstance(c, str):
+        return c.rpartition('.')[2] == 'JSONEncoder'
+    return repo.is_subclass(c, 'JSONEncoder')
+
+
+def _callee_class(repo, mod, func):
+    """ClassInfo / dotted external name the call target ``func`` denotes, else None"""
+    if isinstance(func, ast.Name):
+        kind, m, obj = repo.resolve(mod, func.id)
+        if kind == 'class':
+            return obj
+        if kind == 'external':
+            return obj
+        return None
+    if isinstance(func, ast.Attribute) and isinstance(func.value, ast.Name):
+        kind, m, obj = repo.resolve(mod, func.value.id)
+        if kind == 'module':
+            if m is not None:
+                r = repo.resolve(m, func.attr)
+                if r[0] == 'class':
+                    return r[2]
+                if r[0] == 'external':
+                    return r[2]
+            return '%s.%s' % (obj, func.attr)
+    return None
+
+
+def _hook_is_text(e):
+    """the ``default=`` hook of the stock encoder turns anything into text: repr / str / ascii, or a lambda returning one of them"""
+    if isinstance(e, ast.Name):
+        return e.id in TEXT_HOOKS
+    if isinstance(e, ast.Lambda) and isinstance(e.body, ast.Call) and isinstance(e.body.func, ast.Name) and e.body.func.id in TEXT_HOOKS:
+        return len(e.args.args) == 1 and len(e.body.args) == 1 and norm(e.body.args[0]) == e.args.args[0].arg
+    return False
+
+
+def _construction_keywords(repo, mod, fnode, call, skip=()):
+    """(explicit keyword -> value expr, opaque): the keywords a construction passes, ``**mapping`` resolved through literal
+    layers; opaque = some ``**`` source whose keys are not known here"""
+    from .. import layers
+    kws, opaque = {}, False
+    for k in call.keywords:
+        if k.arg is not None:
+            if k.arg not in skip:
+                kws[k.arg] = k.value
+            continue
+        if isinstance(k.value, ast.Name):
+            lay = layers.layers_of_var(fnode, k.value.id) if fnode is not None else []
+            if not lay:
+                # a mapping kept at module level (single assignment)
+                kind, m2, vals = repo.resolve(mod, k.value.id)
+                lay = layers.layers_of_expr(vals[0]) if kind == 'value' and len(vals) == 1 and isinstance(vals[0], ast.expr) else []
+            if not lay:
+                opaque = True
+        else:
+            lay = layers.layers_of_expr(k.value)
+        for l in lay:
+            if l.kind == 'literal':
+                for key in l.keys:
+                    if key not in skip and key not in kws:
+                        kws[key] = (l.values or {}).get(key)
+            else:
+                opaque = True
+    return kws, opaque
+
+
+def _truth(repo, mod, e):
+    """True / False when the truth value of ``e`` is a constant of the source, else None"""
+    if e is None:
+        return None
+    if isinstance(e, ast.Constant):
+        return bool(e.value)
+    sentinel = object()
+    v = repo.try_fold(e, mod, sentinel)
+    if v is sentinel or not isinstance(v, (bool, int, str, type(None))):
+        return None
+    return bool(v)
+
+
+def _encoder_class_flags(repo, ci):
+    """What makes ``ci().default(obj)`` raise: [(raising node, [flag attribute whose truth excludes it])], and for every
+    flag how the constructor sets it: flag -> (keyword, default expr or None, module) or None when not followed."""
+    d = repo.find_method(ci, 'default')
+    if d is None or d.mod.external:
+        return None, {}          # the stock hook: raises TypeError for everything it is asked about
+    raising = [r for r in raises_of(d) if protected_by(d, r, 'Exception') is None]
+    for c in walk_body(d.node):
+        # delegating to the stock hook raises as well
+        if isinstance(c, ast.Call) and call_tail(c) == 'default' and isinstance(c.func, ast.Attribute) and \
+                ('super' in norm(c.func.value) or norm(c.func.value).endswith('JSONEncoder')) and protected_by(d, c, 'Exception') is None:
+            raising.append(stmt_of(d.mod, c))
+    out = []
+    for r in raising:
+        flags = [t.attr for t, p in conds(d, r) if p is False and isinstance(t, ast.Attribute) and isinstance(t.value, ast.Name) and t.value.id == 'self']
+        out.append((r, flags))
+    setters = {}
+    init = repo.find_method(ci, '__init__')
+    for flag in set(f for _, fl in out for f in fl):
+        setters[flag] = None
+        if init is None or init.mod.external:
+            continue
+        asg = [s for s in stmts_of(init.node) if isinstance(s, ast.Assign) and any(norm(t) == 'self.' + flag for t in s.targets)]
+        others = [m for c in repo.mro(ci) if hasattr(c, 'methods') and not c.mod.external for m in c.methods.values() if m is not init and
+                  any(isinstance(s, (ast.Assign, ast.AugAssign)) and any(norm(t) == 'self.' + flag for t in (s.targets if isinstance(s, ast.Assign) else [s.target]))
+                      for s in stmts_of(m.node))]
+        icfg = cfg_of(init)
+        if len(asg) != 1 or others or not icfg.must_pass(icfg.nodes_of(asg[0]), icfg.entry, icfg.exit, normal_only=True):
+            continue
+        v = asg[0].value
+        kwname = init.node.args.kwarg.arg if init.node.args.kwarg is not None else None
+        a = init.node.args
+        pos = [x.arg for x in a.posonlyargs + a.args]
+        dflt = dict(zip(pos[len(pos) - len(a.defaults):], a.defaults))
+        dflt.update((x.arg, dv_) for x, dv_ in zip(a.kwonlyargs, a.kw_defaults) if dv_ is not None)
+        if isinstance(v, ast.Call) and isinstance(v.func, ast.Attribute) and v.func.attr in ('pop', 'get') and kwname is not None and \
+                norm(v.func.value) == kwname and v.args and isinstance(v.args[0], ast.Constant) and isinstance(v.args[0].value, str) and not v.keywords:
+            setters[flag] = (v.args[0].value, v.args[1] if len(v.args) > 1 else ast.Constant(value=None), init.mod)
+        elif isinstance(v, ast.Name) and v.id in pos + [x.arg for x in a.kwonlyargs] and v.id != 'self' and \
+                not any(isinstance(n, ast.Name) and n.id == v.id and isinstance(n.ctx, ast.Store) for n in walk_body(init.node)):
+            setters[flag] = (v.id, dflt.get(v.id), init.mod)
+    return out, setters
+
+
+def _judge_encoder_construction(repo, mod, fnode, call, cls, skip=()):
+    """(verdict, why) for ``cls(**keywords of call)``: _TOTAL when its hook for values JSON does not know returns text for
+    everything, _PARTIAL when it can raise TypeError.  Raises _Unknown when the source does not say."""
+    kws, opaque = _construction_keywords(repo, mod, fnode, call, skip)
+    if not skip and call.args:
+        # positional arguments of the construction, by the constructor's parameter names
+        init = repo.find_method(cls, '__init__') if not isinstance(cls, str) else None
+        names = [x.arg for x in init.node.args.posonlyargs + init.node.args.args][1:] if init is not None else []
+        for i, a_ in enumerate(call.args):
+            if isinstance(a_, ast.Starred) or i >= len(names):
+                opaque = True
+                break
+            kws.setdefault(names[i], a_)
+    raising, setters = _encoder_class_flags(repo, cls) if not isinstance(cls, str) and not cls.mod.external else (None, {})
+    cname = cls if isinstance(cls, str) else cls.name
+    if raising is None:
+        hook = kws.get('default')
+        if hook is None:
+            if opaque:
+                raise _Unknown('%s: cannot tell whether a default= hook is passed' % short(call, 60))
+            return _PARTIAL, 'the stock JSONEncoder raises TypeError for every value it does not know and no default= hook is given'
+        if _hook_is_text(hook):
+            return _TOTAL, 'default=%s turns unknown values into text' % norm(hook)
+        raise _Unknown('%s: the default= hook %s is not followed' % (short(call, 60), norm(hook)))
+    for r, flags in raising:
+        if not flags:
+            return _PARTIAL, '%s.default() raises at line %d whatever the encoder was built with' % (cname, r.lineno)
+        established = False
+        unknown = None
+        for flag in flags:
+            st = setters.get(flag)
+            if st is None:
+                unknown = 'how %s.%s is set is not followed' % (cname, flag)
+                continue
+            key, dflt, imod = st
+            if key in kws:
+                tv = _truth(repo, mod, kws[key])
+                if tv is None:
+                    unknown = 'the value passed for %s (%s) is not a constant' % (key, norm(kws[key]) if kws[key] is not None else '?')
+                established = established or tv is True
+            elif opaque:
+                unknown = 'cannot tell whether %s is passed' % key
+            else:
+                tv = _truth(repo, imod, dflt) if dflt is not None else None
+                if dflt is None or tv is None:
+                    unknown = '%s is not passed and has no constant default' % key
+                established = established or tv is True
+        if established:
+            continue
+        if unknown:
+            raise _Unknown('%s: %s' % (short(call, 60), unknown))
+        keys = sorted(set(setters[f][0] for f in flags if setters.get(f)))
+        return _PARTIAL, '%s.default() raises TypeError (line %d) for a value it cannot convert unless %s is set, and this encoder is built without it' \
+            % (cname, r.lineno, ' / '.join(keys))
+    return _TOTAL, '%s.default() falls back to text for unknown values (%s)' % (
+        cname, ', '.join(sorted(set('%s=%s' % (setters[f][0], norm(kws[setters[f][0]]) if setters[f][0] in kws and kws[setters[f][0]] is not None else 'default')
+                                     for _, fl in raising for f in fl if setters.get(f))) or 'it never raises'))
+
+
+def _encoder_constructions(repo, mod, fnode, cls, e, depth=0):
+    """[(module, function node or None, construction call, encoder class)] the expression ``e`` (the receiver of an
+    ``.encode(obj)`` / ``.iterencode(obj)``) can denote; [] when it is not a JSON encoder; _Unknown when it may be one but
+    is not followed."""
+    if depth > 5:
+        raise _Unknown('%s: too many steps to the encoder' % norm(e))
+    if isinstance(e, ast.Call):
+        c = _callee_class(repo, mod, e.func)
+        if _is_json_encoder_class(repo, c):
+            return [(mod, fnode, e, c)]
+        return []
+    if isinstance(e, ast.IfExp):
+        return _encoder_constructions(repo, mod, fnode, cls, e.body, depth + 1) + _encoder_constructions(repo, mod, fnode, cls, e.orelse, depth + 1)
+    if isinstance(e, ast.Name):
+        from ..astutil import assigned_value
+        if fnode is not None:
+            a = fnode.args
+            if e.id in [x.arg for x in a.posonlyargs + a.args + a.kwonlyargs]:
+                return []
+            av = assigned_value(fnode, e.id)
+            if av:
+                out = []
+                for st, val, idx in av:
+                    if idx is not None or not isinstance(st, ast.Assign):
+                        return []
+                    out.extend(_encoder_constructions(repo, mod, fnode, cls, val, depth + 1))
+                return out
+        kind, m2, vals = repo.resolve(mod, e.id)
+        if kind == 'value':
+            out = []
+            for v in vals:
+                if v is None or not isinstance(v, ast.expr):
+                    return []
+                out.extend(_encoder_constructions(repo, m2, None, None, v, depth + 1))
+            return out
+        return []
+    if isinstance(e, ast.Attribute) and isinstance(e.value, ast.Name) and e.value.id in ('self', 'cls') and cls is not None:
+        dc, val = repo.class_attr(cls, e.attr)
+        if dc is not None and isinstance(val, ast.expr):
+            return _encoder_constructions(repo, dc.mod, None, None, val, depth + 1)
+        # set per instance: every assignment in the class family must be a followed construction
+        out, n = [], 0
+        for c in repo.mro(cls):
+            if not hasattr(c, 'methods') or c.mod.external:
+                continue
+            for m in c.methods.values():
+                for s in stmts_of(m.node):
+                    if isinstance(s, ast.Assign) and any(norm(t) == 'self.' + e.attr for t in s.targets):
+                        n += 1
+                        out.extend(_encoder_constructions(repo, c.mod, m.node, c, s.value, depth + 1))
+        if n and len(out) < n:
+            if out:
+                raise _Unknown('self.%s is not always bound to a followed encoder construction' % e.attr)
+            return []
+        return out
+    return []
+
+
+def check_json_encoder_total(rep, rule):
+    """The fallback renderer (default_render_error) adapts the error with the same to_* serialisers as the primary
+    renderer, so a serialiser that raises on the error's data cannot be rescued.  JSON: the fields of an error (detail,
+    error_type, the request context of the debug pages) are arbitrary objects; every JSON encoding in a to_* serialiser
+    of the HTTPException family must therefore go through a *total* encoder -- one whose hook for values JSON does not
+    know (``default``) returns text instead of raising TypeError.  Decided from the encoder's class (which conditions
+    guard the ``raise`` in ``default``), its constructor (which keyword sets that flag) and the construction the
+    serialiser uses (what it passes), wherever that construction lives (local, module constant, class attribute)."""
+    repo = rep.repo
+    err = repo.mod(ERR)
+    from .c09 import _escape_scope
+    base = err.cls('HTTPException')
+    fam = [base] + repo.subclasses(base, [err])
+    n, gaps, seen = 0, [], set()
+    for c in fam:
+        for name, m in sorted(c.methods.items()):
+            if not name.startswith('to_'):
+                continue
+            for fi in _escape_scope(repo, err, m):
+                for call in walk_body(fi.node):
+                    if not isinstance(call, ast.Call) or id(call) in seen:
+                        continue
+                    cons = None
+                    try:
+                        if isinstance(call.func, ast.Attribute) and call.func.attr in ('encode', 'iterencode') and len(call.args) == 1 and \
+                                not (isinstance(call.args[0], ast.Constant) and isinstance(call.args[0].value, str)):
+                            cons = _encoder_constructions(repo, fi.mod, fi.node, fi.cls, call.func.value)
+                            cons = [(m_, f_, cc, k_, ()) for m_, f_, cc, k_ in cons]
+                        elif call_tail(call) in ('dumps', 'dump') and call.args:
+                            tgt = _callee_class(repo, fi.mod, call.func) if not isinstance(call.func, ast.Name) else repo.resolve(fi.mod, call.func.id)[2]
+                            if isinstance(tgt, str) and tgt.split('.')[0] in ('json', 'simplejson'):
+                                kc = kwarg(call, 'cls')
+                                k_ = _callee_class(repo, fi.mod, kc) if kc is not None else 'json.JSONEncoder'
+                                if kc is not None and not _is_json_encoder_class(repo, k_):
+                                    raise _Unknown('%s: the encoder class %s is not followed' % (short(call, 60), norm(kc)))
+                                cons = [(fi.mod, fi.node, call, k_, ('cls',))]
+                        if not cons:
+                            continue
+                        seen.add(id(call))
+                        verdicts = [_judge_encoder_construction(repo, m_, f_, cc, k_, skip) + (cc,) for m_, f_, cc, k_, skip in cons]
+                    except _Unknown as u:
+                        gaps.append('%s: %s' % (fi.qualname, u))
+                        n += 1
+                        continue
+                    n += 1
+                    bad = [(why, cc) for v, why, cc in verdicts if v != _TOTAL]
+                    rep.check(rule, fkey(fi, 'json encoder of ' + norm(call)[:60]), not bad,
+                              'JSON encoding of error data cannot raise on an unknown value: ' + '; '.join(sorted(set(why for v, why, cc in verdicts))) if not bad else
+                              '%s.%s encodes the error\'s data with %s: %s -- a detail / error_type / request value that is not JSON-native makes the '
+                              'JSON rendering raise TypeError inside render_error and again inside its default_render_error fallback, so the exception '
+                              'reaches the WSGI server' % (c.name, name, short(bad[0][1], 70), bad[0][0]), fi.mod, call)
+    if gaps:
+        raise AnalysisError('JSON encoding in the error serialisers not followed: ' + '; '.join(gaps))
+    if n < 1:
+        raise AnalysisError('no JSON encoding found in the to_* serialisers of the HTTPException family')
 
 
 def _strict_codec_call(c):
